@@ -165,5 +165,5 @@ def run(check, ctx):
     # the Montgomery ladders on short scalars, low-order points and neutral results included
     from . import c_x
     c_x.x_tables(check, ctx)
-    check.undecided.append("the group law for operand pairs outside the case table; the windowed scalar-multiplication "
-                           "ladders as a whole (ec_scalar, generator tables); Ed25519/Ed448/X25519/X448 native code")
+    check.undecided.append("the group law for operand pairs outside the case tables; the windowed scalar-multiplication "
+                           "ladders for full-length scalars (ec_scalar, generator tables, Edwards / Montgomery ladders beyond the short-scalar rows)")
